@@ -8,7 +8,7 @@ def plan(tier):
     fut = [C01.scen(0, 14), C01.scen(0, 10), C01.scen(0, 11), C01.scen(0, 12), C01.scen(2, 13), C01.scen(3, 12), C01.scen(0, 0)]
     if tier != 'quick':
         fut += [C01.scen(1, 10), C01.scen(1, 11), C01.scen(2, 14), C01.scen(0, 10, 11), C01.scen(0, 12, 14), C01.scen(0, 0, 14)]
-    mtx = [s for s in C07.scenarios('quick') if s['name'] in ('own_dtor_vs_wait', 'own_release_vs_try', 'free_try_wait', 'free_wait_wait', 'own_release_vs_coro')]
+    mtx = [s for s in C07.scenarios('quick') if s['name'] in ('own_dtor_vs_wait', 'own_release_vs_try', 'free_try_wait', 'free_wait_wait', 'own_release_vs_coro', 'own_preq_vs_wait', 'own_preq_vs_try')]
     if tier != 'quick':
         mtx = [s for s in C07.scenarios('quick')]
     units = [dict(engine='e2', name='future_hb', tu='C01.cpp', mode='hb', scenarios=fut, opts={'loop_bound': 3, 'rec_bound': 2}, timeout_s=900,
@@ -55,4 +55,77 @@ def plan(tier):
               unit('disc_lqueue', 2, 'h_disc_lqueue', lqv, 'limited_queue<int>, limits 1..2: {push, pop, unblock_pop, unblock_push, size, empty}', [([0, 3, 0, 0, 1], [1, 2]), ([1, 2, 1, 0], [3])]),
               unit('disc_sched', 3, 'h_disc_sched', sv, 'scheduler in manual mode: {sleep_until, cancel, remove, get_expired} over 3 ids and 4 time points', [([2, 0, 0, 1, 1, 0, 2], []), ([1, 0, 1, 3], [])]),
               unit('disc_pub', 4, 'h_disc_pub', pv, 'publisher<long>(2,1) with a subscriber and its copy: {publish, publish batch, next_ready, copy, kick, position, close}', [([2, 0, 2], [9]), ([3, 0, 3, 4], [4])])]
+    return units
+
+
+# ---------------------------------------------------------------- (b) lock discipline of the thread pool (harness/C11.cpp, h_disc_pool)
+def _pool_histories(n, L):
+    """histories over {submit run_detached job with action k, submit coroutine job with action k, run worker t, stop(), state queries};
+    a tiny simulation of the pool only makes sure that `run worker t` is issued for a runnable worker (the harness checks it again)"""
+    SUBS = [(0, 0), (0, 1), (0, 2), (0, 4), (1, 0), (1, 3)]
+    out = []
+
+    def run(st, t):
+        q, thr, ex = st
+        q = list(q); thr = list(thr)
+        while True:
+            if ex: thr[t] = 'F'; break
+            if not q: thr[t] = 'P'; break
+            kind, k = q.pop(0)
+            if k in (3, 4) and not ex:      # co_await current() re-schedules the coroutine; action 4 submits another job
+                q.append((0, 0))
+                for i in range(1, n + 1):
+                    if thr[i] == 'P': thr[i] = 'W'; break
+        return (tuple(q), tuple(thr), ex)
+
+    def rec(h, st):
+        if h: out.append(list(h))
+        if len(h) >= L: return
+        q, thr, ex = st
+        for (kind, k) in SUBS:
+            q2 = q; thr2 = list(thr)
+            if not ex:
+                q2 = q + ((kind, k),)
+                for i in range(1, n + 1):
+                    if thr2[i] == 'P': thr2[i] = 'W'; break
+            rec(h + [(kind, k)], (q2, tuple(thr2), ex))
+        for t in range(1, n + 1):
+            if thr[t] in 'RW':
+                rec(h + [(2, t - 1)], run(st, t))
+        if not ex:
+            rec(h + [(3,)], ((), tuple('F' if i else '-' for i in range(n + 1)), True))
+        rec(h + [(4,)], st)
+    rec([], ((), tuple('R' if i else '-' for i in range(n + 1)), False))
+    return out
+
+
+def pool_vectors(tier):
+    vs = []
+    for n, L in ((1, 3), (2, 3)) if tier == 'quick' else ((1, 4), (2, 4)):
+        for h in _pool_histories(n, L):
+            if len(h) < (3 if tier == 'quick' else 1): continue
+            if not any(o[0] == 2 for o in h): continue                  # some worker runs
+            if n == 2 and not any(o == (2, 1) for o in h): continue     # two workers: the second one takes part
+            if tier == 'quick' and h[0][0] > 1: continue                # starts with a submission
+            v = [n - 1, len(h)]
+            for o in h: v += list(o)
+            vs.append(v)
+    return vs
+
+
+_plan_without_pool = plan
+
+
+def plan(tier):
+    units = _plan_without_pool(tier)
+    units.append(dict(engine='e1', name='disc_pool', tu='C11.cpp', defines=['VF_DISCIPLINE'], entry='h_disc_pool', unwind=12, vectors=pool_vectors(tier),
+                      concrete=[([0, 3, 0, 1, 2, 0, 4], []), ([0, 4, 1, 3, 2, 0, 4, 2, 0], []), ([1, 3, 0, 4, 2, 1, 3], [])],
+                      space='thread_pool (cooperative thread model of C11): pools of 1..2 workers x every history of %s operations over {run_detached job whose body does nothing / asks '
+                            'thread_pool::current::is_stopped() / current::any_enqueued() / submits another job, coroutine job (co_await pool) that then does nothing / co_await thread_pool::current(), '
+                            'run worker t (when runnable), stop(), is_stopped() + any_enqueued() from the submitting thread} in which a worker runs; then stop(): every access to the pool object '
+                            '(queue header, worker list, exit flag) happens with the pool mutex held' % ('3' if tier == 'quick' else '1..4'),
+                      data='none symbolic', bounds='<= %d operations, <= 2 workers' % (3 if tier == 'quick' else 4),
+                      outside='heap blocks of the task queue (stop() takes them over under the lock and releases them outside it); constructor and destructor (no other thread can hold the pool); '
+                              'pre-emption inside a worker between unlock and the job call',
+                      assumptions=['C11 cooperative thread model: std::thread = table entry run by the harness until it returns or parks in condition_variable::wait']))
     return units
